@@ -61,3 +61,26 @@ package protocol
 
 //@ func (p KeyPhase) Bit
 //@   inline
+
+// ---------------- stream IDs (C15) ----------------
+//@ func (s StreamID) InitiatedBy
+//@   props C15
+//@   requires s >= 0
+//@   ensures [value] result == ite(s % 2 == 0, PerspectiveClient, PerspectiveServer)
+//@   modifies nothing
+//@ func (s StreamID) Type
+//@   props C15
+//@   requires s >= 0
+//@   ensures [value] result == ite(s % 4 >= 2, StreamTypeUni, StreamTypeBidi)
+//@   modifies nothing
+//@ func (s StreamID) StreamNum
+//@   props C15
+//@   requires s >= 0
+//@   ensures [value] result == s / 4 + 1
+//@   modifies nothing
+//@ func (s StreamNum) StreamID
+//@   props C15
+//@   requires 0 <= s && s <= 1152921504606846976 && (stype == StreamTypeBidi || stype == StreamTypeUni) && (pers == PerspectiveClient || pers == PerspectiveServer)
+//@   ensures [zero] implies(s == 0, result == -1)
+//@   ensures [value] implies(s > 0, result == ite(stype == StreamTypeBidi, ite(pers == PerspectiveClient, 0, 1), ite(pers == PerspectiveClient, 2, 3)) + 4 * (s - 1))
+//@   modifies nothing
